@@ -41,7 +41,7 @@ type G struct {
 func NewG(t *rapid.T, d *xdoc.Doc) *G {
 	// guidance works on a small budget: when it runs out the draw is simply unguided
 	return &G{T: t, Env: &xref.Env{Doc: d, Limit: 150000}, ElNames: ElNames3, AtNames: AtNames2,
-		StrLits: []string{"1", "2", "t", "10", "x y", "", "a", "b", "it's", "q\"q"},
+		StrLits: []string{"1", "2", "t", "10", "x y", "", "a", "b", "it's", "q\"q", "b\\"},
 		NumLits: []string{"0", "1", "2", "10", "1.5"}, Guide: 7}
 }
 
